@@ -155,3 +155,15 @@ package domain
 //@   ensures res != nil && fresh(res)
 
 //@ interface PlatformProfile.GetName
+
+// ---- C20: a parsed model listing contains only named, non-nil entries
+//@ spec func namedModels(ms []*ModelInfo) bool = forall i int :: 0 <= i && i < len(ms) ==> ms[i] != nil && ms[i].Name != ""
+//@ interface PlatformProfile.ParseModelsResponse
+//@   ensures res1 == nil ==> namedModels(res0)
+//@ interface PlatformProfile.GetModelDiscoveryURL
+
+// registry updates as seen by the discovery service (C20): regCalls counts every RegisterModels* call
+//@ ghost var regCalls int
+//@ interface ModelRegistry.RegisterModels
+//@   modifies gvar regCalls
+//@   records regCalls = old(regCalls) + 1
